@@ -1,6 +1,6 @@
 """C10 - equals() is an equivalence relation that sees every attribute (structural clauses)."""
 from facts import walk, render, role, is_call, AnalysisBroken
-from engines import is_this_like, ff, nth_arg, receiver, unwrap_defarg, nonnull_facts
+from engines import is_this_like, ff, nth_arg, receiver, unwrap_defarg, nonnull_facts, single_def, _decompose
 import fields
 
 LEVEL = ('Field-coverage and symmetry rules over the doEquals chain (clang AST/CFG): on every path to a result that can be true, every attribute the property lists '
@@ -46,8 +46,36 @@ def evaluated_ids(f, r):
     (decomposed) branch conditions known to hold at r, and every node whose CFG position dominates r."""
     cfg = f.cfg()
     ids = {x['i'] for x in walk(r)}
+
+    def named(e, truth, depth=0):
+        """a bool local defined once stands for its initialiser: when it is known to be true (false), the conjuncts (disjuncts) of the
+        initialiser were all evaluated, although `&&` / `||` put them in blocks of their own that do not dominate the return"""
+        while e is not None and e.get('k') in ('Paren', 'Cast') and len(e.get('c', [])) == 1:
+            e = e['c'][0]
+        if e is None or depth > 3 or not (e.get('k') == 'Ref' and e.get('dk') == 'local'):
+            return
+        i_ = single_def(f, e.get('d'))
+        if i_ is None:
+            return
+        tmp = []
+        _decompose(i_, truth, tmp)
+        for c2, t2 in tmp:
+            if c2.get('k') == 'Bin' and c2.get('op') in ('&&', '||'):
+                lm = c2
+                while lm.get('k') == 'Bin' and lm.get('op') in ('&&', '||'):
+                    lm = lm['c'][0]
+                ids.update(x['i'] for x in walk(lm))    # the leftmost operand is evaluated whatever the outcome
+            else:
+                ids.update(x['i'] for x in walk(c2))
+                named(c2, t2, depth + 1)
+    if r.get('c'):
+        tmp0 = []
+        _decompose(r['c'][0], True, tmp0)     # the result under consideration is `true`
+        for c0, t0 in tmp0:
+            named(c0, t0)
     for c, t in (ff(f).conds_at(r) or []):
         ids |= {x['i'] for x in walk(c)}
+        named(c, t)
     for n in f.walk():
         if n['i'] not in ids and f.enclosing_lambda(n) is None and n['i'] in cfg.pos and cfg.node_dominates(n, r):
             ids.add(n['i'])
@@ -280,6 +308,48 @@ def run(F, rep):
                 for cov, cnd2 in theirs:
                     n_p += 1
                     rep.check(fld in cov, 'C10.P1', '%s|%s' % (cls, render(b)[:60]), f.where(b), '%s::doEquals pairs the null test of %s with `%s`, which reads %s on the other object' % (cls, fld, render(cnd2)[:40], sorted(cov)[:3]), 'same attribute on both sides')
+    # the same pairing written with nesting instead of a conjunction: `if (mine != nullptr) {...} else if (other->getter() != nullptr) return false;`
+    # - the null test on the other object is paired with the NEAREST enclosing condition that tests a field of this object for null
+    from engines import enclosing_conditions as _encl
+    for cls in CLASSES:
+        f = do_equals(F, cls)
+        for t_ in f.walk():
+            nt = null_test(t_)
+            if nt is None or (t_.get('k') == 'Ref'):
+                continue
+            e = nt[0]
+            if any(m.get('k') == 'Member' and m.get('field') and is_this_like((m.get('c') or [None])[0]) for m in walk(e)):
+                continue
+            src = e
+            if e.get('k') == 'Ref' and e.get('dk') == 'local':
+                for v in f.walk():
+                    if v.get('k') == 'Var' and v.get('d') == e['d'] and v.get('c'):
+                        src = v['c'][0]
+            cov = set()
+            for g_ in [c for c in walk(src) if c.get('k') == 'Call' and c.get('mc') and not c.get('opc') and c.get('c') and not is_this_like(c['c'][0])]:
+                for ck in F.callee_keys(g_):
+                    if ck in F.funcs:
+                        cov |= fields.this_reads(F, F.funcs[ck])
+            if not cov:
+                continue
+            for cnd, br, st_ in _encl(f, t_):
+                if st_.get('k') == 'Bin':
+                    continue      # conjunction peers are handled above
+                tmp = []
+                _decompose(cnd, br == 'then', tmp)
+                mine_ = []
+                for c2, t2 in tmp:
+                    n2 = null_test(c2)
+                    if n2 is None:
+                        continue
+                    fl = [m['n'] for m in walk(n2[0]) if m.get('k') == 'Member' and m.get('field') and is_this_like((m.get('c') or [None])[0])]
+                    if fl:
+                        mine_.append(fl[0])
+                if mine_:
+                    for fld in mine_:
+                        n_p += 1
+                        rep.check(fld in cov, 'C10.P1', '%s|%s|under %s' % (cls, render(t_)[:40], render(cnd)[:30]), f.where(t_), '%s::doEquals pairs the null test of %s with `%s`, which reads %s on the other object' % (cls, fld, render(t_)[:40], sorted(cov)[:3]), 'same attribute on both sides')
+                    break
     if n_p < 2:
         raise AnalysisBroken('C10.P1: paired null tests vanished (%d found, 2 confirmed in Reset::doEquals)' % n_p)
 
